@@ -815,6 +815,11 @@ class HelperInliner:
                             block[i:i + 1] = [pre_, st]
                             self._hoisted = getattr(self, "_hoisted", set()) | {id(pre_)}
                             continue
+                if not done and isinstance(st, ast.With) and len(st.items) == 1 and st.items[0].optional_vars is None and isinstance(st.items[0].context_expr, ast.Call):
+                    w = self._inline_contextmanager(st, fn, cls, qual)
+                    if w is not None:
+                        block[i:i + 1] = w
+                        continue
                 if not done and isinstance(st, ast.Assign) and len(st.targets) == 1 and isinstance(st.targets[0], ast.Name) and isinstance(st.value, ast.Call) \
                         and isinstance(st.value.func, ast.Name) and st.value.func.id in ("list", "tuple") and len(st.value.args) == 1 and not st.value.keywords \
                         and isinstance(st.value.args[0], ast.Call):
@@ -846,6 +851,94 @@ class HelperInliner:
         process(fn.body)
         ast.fix_missing_locations(fn)
         return fn
+
+    def _inline_contextmanager(self, w: ast.With, fn: ast.FunctionDef, cls: ast.ClassDef | None, qual: str) -> list[ast.stmt] | None:
+        """``with helper(args): BODY`` where helper is a @contextmanager generator of later origin with a single ``yield``:
+        * yield at the top level of the helper:   pre ; BODY ; post      -- an exception in BODY propagates out of the generator at the
+          yield, so `post` does NOT run; a `return` in BODY leaves the with normally, so post runs first (returns are rewritten);
+        * yield directly inside a try with a finally (nothing else after the yield): pre ; try: BODY finally: F."""
+        r = self.resolve(w.items[0].context_expr, fn, cls, qual)  # type: ignore[arg-type]
+        if r is None:
+            return None
+        callee, implicit, q = r
+        if not any((dotted(d) or "").split(".")[-1] == "contextmanager" for d in callee.decorator_list):
+            return None
+        ys = [n for n in ast.walk(callee) if isinstance(n, (ast.Yield, ast.YieldFrom))]
+        if len(ys) != 1 or isinstance(ys[0], ast.YieldFrom) or any(isinstance(n, ast.Return) for n in ast.walk(callee)):
+            return None
+        b = self._bind(callee, implicit, w.items[0].context_expr)  # type: ignore[arg-type]
+        if b is None or not all(isinstance(x, (ast.Name, ast.Constant)) or dotted(x) is not None for x in b[0].values()):
+            return None
+        body = copy.deepcopy([s_ for s_ in callee.body if not (isinstance(s_, ast.Expr) and isinstance(s_.value, ast.Constant))])
+        self.counter += 1
+        sfx = f"__w{self.counter}"
+        assigned = set(_stores(ast.Module(body=body, type_ignores=[])))
+        rename = {n: n + sfx for n in assigned if n not in b[0]}
+        body = [_Subst({k: v for k, v in b[0].items() if k not in assigned}).visit(_Rename(rename).visit(s_)) for s_ in body]
+
+        def is_yield(s_: ast.stmt) -> bool:
+            return isinstance(s_, ast.Expr) and isinstance(s_.value, ast.Yield)
+
+        def own(ss: list[ast.stmt], kinds: tuple) -> bool:
+            for x in ss:
+                if isinstance(x, kinds):
+                    return True
+                if isinstance(x, (ast.For, ast.While, ast.FunctionDef, ast.ClassDef)):
+                    continue
+                if any(own(bb, kinds) for bb in _blocks(x)):
+                    return True
+            return False
+
+        if own(w.body, (ast.Break, ast.Continue)):
+            return None
+        idx = next((k for k, s_ in enumerate(body) if is_yield(s_)), None)
+        out: list[ast.stmt] | None = None
+        if idx is not None:
+            pre, post = body[:idx], body[idx + 1:]
+
+            def with_post(ss: list[ast.stmt]) -> list[ast.stmt]:
+                o: list[ast.stmt] = []
+                for x in ss:
+                    if isinstance(x, ast.Return):
+                        tmp = f"__wr{self.counter}"
+                        if x.value is not None:
+                            o.append(ast.copy_location(ast.Assign(targets=[ast.Name(id=tmp, ctx=ast.Store())], value=x.value), x))
+                        o.extend(copy.deepcopy(post))
+                        o.append(ast.copy_location(ast.Return(value=ast.Name(id=tmp, ctx=ast.Load()) if x.value is not None else None), x))
+                        return o
+                    if isinstance(x, (ast.FunctionDef, ast.ClassDef)):
+                        o.append(x)
+                        continue
+                    x = copy.copy(x)
+                    for fld in ("body", "orelse", "finalbody"):
+                        bb = getattr(x, fld, None)
+                        if isinstance(bb, list) and bb and isinstance(bb[0], ast.stmt):
+                            setattr(x, fld, with_post(bb))
+                    if isinstance(x, ast.Try):
+                        x.handlers = [ast.ExceptHandler(type=h.type, name=h.name, body=with_post(h.body)) for h in x.handlers]
+                    o.append(x)
+                return o
+
+            out = pre + with_post(copy.deepcopy(w.body)) + copy.deepcopy(post)
+        else:
+            tries = [(k, s_) for k, s_ in enumerate(body) if isinstance(s_, ast.Try) and any(is_yield(x) for x in s_.body)]
+            if len(tries) == 1:
+                k, t_ = tries[0]
+                yi = next(j for j, x in enumerate(t_.body) if is_yield(x))
+                if not t_.body[yi + 1:] and not body[k + 1:] and not t_.orelse and not t_.handlers:
+                    t2 = ast.copy_location(ast.Try(body=t_.body[:yi] + copy.deepcopy(w.body), handlers=[], orelse=[], finalbody=t_.finalbody), w)
+                    out = body[:k] + [t2]
+        if out is None:
+            self.failed.add(q)
+            return None
+        for s_ in out:
+            for n in ast.walk(s_):
+                if hasattr(n, "lineno"):
+                    n.lineno = getattr(w, "lineno", n.lineno)
+                    n.end_lineno = getattr(w, "end_lineno", None)
+            ast.fix_missing_locations(s_)
+        self.inlined.add(q)
+        return out
 
     def _inline_generator(self, loop: ast.For, fn: ast.FunctionDef, cls: ast.ClassDef | None, qual: str) -> list[ast.stmt] | None:
         """``for T in helper(args): BODY`` with a new generator helper: the helper's body with every ``yield E`` replaced
